@@ -348,6 +348,10 @@ class cstruct:
 
     def _make_array(self, type_: T, num_entries: int | Expression | None) -> type[Array[T]]:
         null_terminated = False
+        if isinstance(num_entries, int) and num_entries < 0:
+            # A negative (constant) size holds no entries, just like an expression that evaluates to a negative number
+            num_entries = 0
+
         if num_entries is None:
             null_terminated = True
             size = None
